@@ -1990,36 +1990,37 @@ namespace
     }
     value throw_any(runtime& runtime, value::cref right)
     {
-        auto res = std::find_if(runtime.context_active().frames_rbegin(), runtime.context_active().frames_rend(), [&](frame& f) -> bool {
-            return f.can_recover_runtime_error();
-            });
-        if (res == runtime.context_active().frames_rend())
+        auto& context = runtime.context_active();
+        std::vector<sqf::runtime::frame> stacktrace_frames(context.frames_rbegin(), context.frames_rend());
+        sqf::runtime::diagnostics::stacktrace stacktrace(stacktrace_frames);
+        stacktrace.value = right;
+        // The nearest frame that accepts the exception handles it. A frame declines if it is
+        // executing its handler already: an exception thrown by a handler belongs to the next try further out.
+        for (auto res = context.frames_rbegin(); res != context.frames_rend(); ++res)
         {
-            runtime.__logmsg(err::ErrorMessage(runtime.context_active().current_frame().diag_info_from_position(), "THROW", right.data()->to_string_sqf()));
-        }
-        else
-        {
-            std::vector<sqf::runtime::frame> stacktrace_frames(runtime.context_active().frames_rbegin(), runtime.context_active().frames_rend());
-            sqf::runtime::diagnostics::stacktrace stacktrace(stacktrace_frames);
-            stacktrace.value = right;
-            auto valpos = runtime.context_active().values_size();
-            runtime.context_active().push_value(stacktrace);
+            if (!res->can_recover_runtime_error())
+            {
+                continue;
+            }
+            auto valpos = context.values_size();
+            context.push_value(stacktrace);
             if (res->recover_runtime_error(runtime) == frame::result::error)
             {
-                if (valpos > 0)
+                if (context.values_size() > valpos)
                 {
-                    runtime.context_active().pop_value();
+                    context.pop_value();
                 }
-                runtime.__logmsg(err::ErrorMessage(runtime.context_active().current_frame().diag_info_from_position(), "THROW", right.data()->to_string_sqf()));
-                return {};
+                continue;
             }
 
-            auto drop = res - runtime.context_active().frames_rbegin();
+            auto drop = res - context.frames_rbegin();
             while (drop-- != 0)
             {
-                runtime.context_active().pop_frame();
+                context.pop_frame();
             }
+            return {};
         }
+        runtime.__logmsg(err::ErrorMessage(context.current_frame().diag_info_from_position(), "THROW", right.data()->to_string_sqf()));
         return {};
     }
     value throw_if_any(runtime& runtime, value::cref left, value::cref right)
@@ -2040,17 +2041,19 @@ namespace
         {
         private:
             instruction_set m_set;
+            bool m_fired;
         public:
-            behavior_catch_exit(instruction_set set) : m_set(set) {}
+            behavior_catch_exit(instruction_set set) : m_set(set), m_fired(false) {}
             virtual sqf::runtime::instruction_set get_instruction_set(sqf::runtime::frame& frame) override { return m_set; };
             virtual result enact(sqf::runtime::runtime& runtime, sqf::runtime::frame& frame) override
             {
-                if (runtime.__runtime_error())
-                {
+                if (runtime.__runtime_error() || m_fired)
+                { // runtime errors are not exceptions; the handler itself is not guarded by its own try
                     return result::fail;
                 }
                 else
                 {
+                    m_fired = true;
                     auto val = runtime.context_active().pop_value();
                     runtime.context_active().clear_values();
                     frame.clear_value_scope();
